@@ -97,7 +97,14 @@ func handle(op string, args []reflect.Value, rt reflect.Type) []reflect.Value {
 			r := mk()
 			rv := reflect.ValueOf(r).Elem()
 			if f := rv.FieldByName("Payload"); f.IsValid() && len(curCase.Payload) > 0 {
-				_ = json.Unmarshal(curCase.Payload, f.Addr().Interface())
+				if f.Kind() == reflect.Interface {
+					// a stream of bytes: the case carries its content as a JSON string
+					var content string
+					_ = json.Unmarshal(curCase.Payload, &content)
+					f.Set(reflect.ValueOf(io.NopCloser(strings.NewReader(content))))
+				} else {
+					_ = json.Unmarshal(curCase.Payload, f.Addr().Interface())
+				}
 			}
 			for name, val := range curCase.RespHeaders {
 				if f := rv.FieldByName(name); f.IsValid() {
@@ -108,6 +115,10 @@ func handle(op string, args []reflect.Value, rt reflect.Type) []reflect.Value {
 						var n int64
 						fmt.Sscan(val, &n)
 						f.SetInt(n)
+					case reflect.Struct:
+						if dt, err := strfmt.ParseDateTime(val); err == nil && f.Type() == reflect.TypeOf(dt) {
+							f.Set(reflect.ValueOf(dt))
+						}
 					}
 				}
 			}
@@ -213,7 +224,7 @@ func main() {
 				}
 				m := reflect.ValueOf(cli.Operations).MethodByName(goName(c.Op))
 				args := []reflect.Value{reflect.ValueOf(p)}
-				if m.Type().NumIn() > 1 && !m.Type().In(1).AssignableTo(reflect.TypeOf((func(*runtime.ClientOperation))(nil))) && m.Type().In(1).Kind() == reflect.Interface {
+				if m.Type().NumIn() > 1 && m.Type().In(1) == reflect.TypeOf((*runtime.ClientAuthInfoWriter)(nil)).Elem() {
 					var ai runtime.ClientAuthInfoWriter
 					switch {
 					case strings.HasPrefix(c.Auth, "key:"):
@@ -227,6 +238,14 @@ func main() {
 						ai = runtime.ClientAuthInfoWriterFunc(func(runtime.ClientRequest, strfmt.Registry) error { return nil })
 					}
 					args = append(args, reflect.ValueOf(ai))
+				}
+				// a streaming operation takes the writer that receives the bytes
+				var sink bytes.Buffer
+				writerT := reflect.TypeOf((*io.Writer)(nil)).Elem()
+				for i := len(args); i < m.Type().NumIn(); i++ {
+					if m.Type().In(i) == writerT {
+						args = append(args, reflect.ValueOf(&sink))
+					}
 				}
 				outs := m.Call(args)
 				errv := outs[len(outs)-1]
@@ -358,7 +377,10 @@ func describe(v reflect.Value, e error) {
 	}
 	if ev.Kind() == reflect.Struct {
 		if f := ev.FieldByName("Payload"); f.IsValid() {
-			if b, err := json.Marshal(f.Interface()); err == nil {
+			if buf, ok := f.Interface().(*bytes.Buffer); ok {
+				b, _ := json.Marshal(buf.String()) // what was streamed into the writer the call was given
+				current.ClientPayload = b
+			} else if b, err := json.Marshal(f.Interface()); err == nil {
 				current.ClientPayload = b
 			}
 		}
